@@ -313,11 +313,15 @@ struct CloseCase {
 	resolutions: Vec<bool>,
 	/// request the close before the pending payments are resolved (shutdown then waits for them)
 	close_early: bool,
+	/// the close is requested straight after the generated operations (events not yet handled, messages still
+	/// queued) and the shutdown exchange is delivered before anybody handles events
+	#[serde(default)]
+	raw_close: bool,
 }
 
 fn close_strat() -> impl Strategy<Value = CloseCase> {
-	(world_spec(vec![Topology::Pair]), proptest::collection::vec(op_strategy(limit_weights()), 0..30), any::<bool>(), proptest::collection::vec(any::<bool>(), 8), any::<bool>())
-		.prop_map(|(spec, ops, closer_is_funder, resolutions, close_early)| CloseCase { spec, ops, closer_is_funder, resolutions, close_early })
+	(world_spec(vec![Topology::Pair]), proptest::collection::vec(op_strategy(limit_weights()), 0..30), any::<bool>(), proptest::collection::vec(any::<bool>(), 8), any::<bool>(), proptest::bool::weighted(0.3))
+		.prop_map(|(spec, ops, closer_is_funder, resolutions, close_early, raw_close)| CloseCase { spec, ops, closer_is_funder, resolutions, close_early: close_early || raw_close, raw_close })
 }
 
 /// One party ends with a balance at or right next to the dust limit of the closing transaction (354 sat): the acceptor
@@ -337,7 +341,7 @@ fn close_dust_edge_strat() -> impl Strategy<Value = CloseCase> {
 			spec.reserve_ppm = 0;
 			let mut ops = vec![Op::Send { route: 0, amt: Amt::Abs((sat + msat).max(1) as u64) }, Op::Pump, Op::Claim { pay: 0 }, Op::Pump, Op::Pump];
 			ops.extend(tail);
-			CloseCase { spec, ops, closer_is_funder, resolutions: vec![true; 8], close_early: false }
+			CloseCase { spec, ops, closer_is_funder, resolutions: vec![true; 8], close_early: false, raw_close: false }
 		})
 }
 
@@ -350,8 +354,10 @@ fn close_oracle(c: &CloseCase, ctx: &mut Ctx) -> CaseResult {
 		apply(&mut sim, &c.spec, op);
 		o.step(&sim)?;
 	}
-	apply(&mut sim, &c.spec, &Op::Pump);
-	o.step(&sim)?;
+	if !c.raw_close {
+		apply(&mut sim, &c.spec, &Op::Pump);
+		o.step(&sim)?;
+	}
 	let closer = if c.closer_is_funder { 0 } else { 1 };
 	let chan_id = sim.chans[0].id;
 	let request_close = |sim: &mut Sim, o: &mut CommitOracle| -> bool {
@@ -364,6 +370,11 @@ fn close_oracle(c: &CloseCase, ctx: &mut Ctx) -> CaseResult {
 	let mut requested = false;
 	if c.close_early {
 		requested = request_close(&mut sim, &mut o);
+		if c.raw_close {
+			ctx.label("close-requested-with-events-unhandled");
+			apply(&mut sim, &c.spec, &Op::Flush);
+			o.step(&sim)?;
+		}
 		apply(&mut sim, &c.spec, &Op::Pump);
 		o.step(&sim)?;
 	}
@@ -516,7 +527,7 @@ fn main() {
 		PartSpec {
 			name: "coop-close",
 			rule: "random world + 0..30 operations, payments resolved by generated claim/fail choices, cooperative close requested by either side (optionally while HTLCs are pending); the single closing transaction pays the non-funder its model balance, the funder its balance minus the fee, the fee lies in every exchanged fee range. Non-trivial: >=2 commitment updates happened before the close",
-			quick_cases: 600,
+			quick_cases: 2400,
 			thorough_cases: 40_000,
 			max_shrink: 300,
 		},
